@@ -30,6 +30,18 @@ func HostileCrits() []*m.Crit {
 	}
 }
 
+// nonCanonicalIDDocs: _id values that the library's own validation accepts although they are not in the canonical
+// 36-character form (no dashes, braces, urn prefix, upper case).
+func nonCanonicalIDDocs() []m.Doc {
+	return []m.Doc{
+		{"_id": "6ba7b8109dad11d180b400c04fd430c8", "x": int64(1), "y": "a"},
+		{"_id": "{6ba7b811-9dad-11d1-80b4-00c04fd430c8}", "x": int64(2), "y": "b"},
+		{"_id": "urn:uuid:6ba7b812-9dad-11d1-80b4-00c04fd430c8", "x": int64(3), "y": "c"},
+		{"_id": "6BA7B813-9DAD-11D1-80B4-00C04FD430C8", "x": int64(4), "y": "d"},
+		{"_id": ID(5), "x": int64(5), "y": "e"},
+	}
+}
+
 // HostileSweep: every public DB operation x database situation x hostile criteria x sort/window (C20).
 func HostileSweep(run *ev.Run, backend string) {
 	situations := []struct {
@@ -42,6 +54,7 @@ func HostileSweep(run *ev.Run, backend string) {
 		{"populated", []m.Op{{K: "createColl", Coll: "a"}, {K: "insert", Coll: "a", Docs: DefaultDataset()}}, false},
 		{"populated+index-x", []m.Op{{K: "createColl", Coll: "a"}, {K: "createIndex", Coll: "a", Field: "x"}, {K: "insert", Coll: "a", Docs: DefaultDataset()}}, false},
 		{"populated+indexes-x-y-n.a", []m.Op{{K: "createColl", Coll: "a"}, {K: "insert", Coll: "a", Docs: DefaultDataset()}, {K: "createIndex", Coll: "a", Field: "x"}, {K: "createIndex", Coll: "a", Field: "y"}, {K: "createIndex", Coll: "a", Field: "n.a"}}, false},
+		{"indexed+non-canonical-uuid-ids", []m.Op{{K: "createColl", Coll: "a"}, {K: "createIndex", Coll: "a", Field: "x"}, {K: "createIndex", Coll: "a", Field: "y"}, {K: "insert", Coll: "a", Docs: nonCanonicalIDDocs()}}, false},
 		{"closed-handle", []m.Op{{K: "createColl", Coll: "a"}, {K: "createIndex", Coll: "a", Field: "x"}, {K: "insert", Coll: "a", Docs: DefaultDataset()}}, true},
 	}
 	shapes := []Shape{{}, {Sort: []m.SortOpt{{Field: "x", Dir: -1}}}, {Sort: []m.SortOpt{{Field: "y", Dir: 1}, {Field: "x", Dir: 0}}, SkipSet: true, Skip: 1, LimitSet: true, Limit: 2},
